@@ -29,8 +29,14 @@ ll probe_digest(OpT& op, int n)
     return g.word30();
 }
 
+static CVecL g_pres;
 static void ref_spectrum(Ctx& cx, const Desc& d)
 {
+    if (d.i("c04") && g_pres.size())
+    {
+        set_prescribed(cx, g_pres);
+        return;
+    }
     if (d.i("ref", 1) == 0)
         return;
     Eigen::ComplexEigenSolver<CMatL> es(cx.PA, false);
@@ -64,6 +70,7 @@ void dispatch(const Desc& d)
     typedef Eigen::Matrix<T, Eigen::Dynamic, Eigen::Dynamic> Mat;
     const std::string cls = d.s("cls");
     GenProblem gp = gen_gen(d);
+    g_pres = gp.spec;
     const int n = (int) d.i("n");
     Mat A = gp.A.cast<T>();
     const Eigen::Index nev = (Eigen::Index) d.i("nev"), ncv = (Eigen::Index) d.i("ncv");
